@@ -69,8 +69,11 @@ SessPacketPlain(S, seq4, msg, key1) ==
 \* byte from the request as it received it: message byte 5 of the null-session datagram, or of the decrypted payload
 ReqPlain0 == AesDec(Ref("K2"), Slice(Req, 16, 32), SliceDyn(Req, 32, Slice(Req, 14, 16), 16))
 EchoN == Slice(Req, 20, 21)
-EchoS == Slice(ReqPlain0, 4, 5)
-EchoWith(k2) == Slice(AesDec(k2, Slice(Req, 16, 32), SliceDyn(Req, 32, Slice(Req, 14, 16), 16)), 4, 5)
+\* (a request that arrives in the null session although a session exists is answered as what it is: the byte is then
+\* where a null-session message has it)
+EchoS == [op |-> "lookup", key |-> Slice(Req, 5, 6), table |-> [kk \in {"00"} |-> EchoN], default |-> Slice(ReqPlain0, 4, 5)]
+EchoWith(k2) == [op |-> "lookup", key |-> Slice(Req, 5, 6), table |-> [kk \in {"00"} |-> EchoN],
+                 default |-> Slice(AesDec(k2, Slice(Req, 16, 32), SliceDyn(Req, 32, Slice(Req, 14, 16), 16)), 4, 5)]
 MsgRspE(echo, netfnRsp, rsLun, cmd, cc, body) ==
   LET h1 == <<129, netfnRsp * 4>>
       h2 == Cat(<< B(<<32>>), IF rsLun = 0 THEN echo ELSE AddByte(echo, 0, rsLun), B(<<cmd, cc>> \o body) >>)
